@@ -290,6 +290,21 @@ func c20RunTrunc(tb drv.TB, rec *drv.Rec, sub string, c c20Trunc) {
 		rec.Violation(tb, sub, "trunc-"+c.Kind+"-"+sig, c, "%s of %d elements after a %d byte prefix panicked: %v\n%s", c.Kind, c.N, c.Prefix, p, st)
 		return
 	}
+	// the line buffers are pooled: whatever the over-long line did to its buffer, the next line must be rendered in full
+	fb := c20Field{Kind: "bytearray", Name: "b", B: []byte{1, 2, 0xfe}}
+	var got2, want2 string
+	if p, sig, st := drv.Catch(func() {
+		l2 := fastlog.New("after").Msg("")
+		want2 = modulePrefix("after") + fb.apply(l2)
+		got2 = l2.ToString()
+	}); p != nil {
+		rec.Violation(tb, sub, "trunc-next-line-"+sig, c, "the line rendered after an over-long %s panicked: %v\n%s", c.Kind, p, st)
+		return
+	}
+	if got2 != want2 {
+		rec.Violation(tb, sub, "trunc-poisons-next-line", c, "the line rendered after an over-long %s reads %q, want %q", c.Kind, got2, want2)
+		return
+	}
 	head := modulePrefix("trunc") + ` p="` + pre + `"`
 	if len(got) > 2048 {
 		rec.Violation(tb, sub, "trunc-overflow", c, "line is %d bytes", len(got))
@@ -305,6 +320,10 @@ func c20RunTrunc(tb drv.TB, rec *drv.Rec, sub string, c c20Trunc) {
 		return
 	}
 	rec.Class("trunc: truncated " + c.Kind)
+	if len(head)+len(full) < 2000 { // the same "fits the line buffer" rule as the lines sub-check: such a line must be complete
+		rec.Violation(tb, sub, "trunc-premature-"+c.Kind, c, "the complete line would take %d of 2048 bytes, but the array was cut: %q", len(head)+len(full), rest[:min(len(rest), 120)])
+		return
+	}
 	// the rendered elements must be a prefix of the reference elements
 	open := " " + c.Name + "=["
 	if rest == "" {
@@ -496,6 +515,10 @@ func TestC20(t *testing.T) {
 		case "iparray":
 			c.N = rapid.IntRange(0, 80).Draw(t, "n")
 			c.IPs = []string{c20GenIP6(t), c20GenIP6(t)}
+			if rapid.IntRange(0, 3).Draw(t, "short") == 0 { // many short addresses: far more than 49 of them fit a line
+				c.N = rapid.IntRange(40, 260).Draw(t, "nShort")
+				c.IPs = []string{"10.0.0.1", "::1", "10.1.2.3"}
+			}
 			if rapid.IntRange(0, 3).Draw(t, "withNil") == 0 { // nil entries cost two bytes each: long runs of them reach the end of the buffer too
 				c.N = rapid.IntRange(0, 1200).Draw(t, "nNil")
 				c.NilAt = 1 + rapid.SampledFrom([]int{0, 0, 1, 10, 40, 45, 46, 47, 48, 49, 50}).Draw(t, "nilFrom")
